@@ -131,10 +131,19 @@ def scenario(draw, tier="quick"):
         for r in perm[k:]:
             if draw(st.booleans()):
                 res[r] = "PLACED"
+    late_removal = kind in ("WIN", "PLACE", "MATCH_ODDS", "DEADHEAT") and draw(st.integers(0, 5)) == 0
     steps.append({"dt": 500, "k": "close", "results": res})
     # re-settlement: an amended result sent while the market is closed (another runner promoted: a dead heat), or the
     # market re-opened, traded further and closed again with the same result - the last closing book is what counts
     ext = draw(st.sampled_from(["none", "none", "none", "amend", "reopen"]))
+    if late_removal and ext == "none":
+        # a withdrawal that is first visible in the (only) closing definition: the bets on that runner still hold their
+        # fills when the market settles (the simulation never saw a removal) - they are void, profit 0
+        others = [r for r in active if res[r] != "WINNER"]
+        if others:
+            res = list(res)
+            res[others[draw(st.integers(0, len(others) - 1))]] = "REMOVED"
+            steps[-1]["results"] = res
     if ext == "amend" and kind in ("WIN", "DEADHEAT", "PLACE", "EACH_WAY", "MATCH_ODDS"):
         res2 = list(res)
         losers = [r for r in active if res2[r] != "WINNER"]
